@@ -40,12 +40,13 @@ pub fn gen_case(seed: u64) -> Case {
     };
     let renderable = program.is_renderable();
     let form = match conf.below(3) {
+        0 if renderable && conf.percent(35) => Form::ParsedLoose,
         0 if renderable => Form::Parsed,
         1 => Form::Assembled { wrap: true },
         0 => Form::Assembled { wrap: true },
         _ => Form::Assembled { wrap: false },
     };
-    let entry = if form == Form::Parsed && conf.percent(50) {
+    let entry = if form.is_parsed() && conf.percent(50) {
         Entry::Str
     } else {
         Entry::Tree
@@ -141,7 +142,9 @@ pub fn run_one(prop: Prop, batch_seed: u64, run_index: u64, out: &mut WorkerOut,
             });
             out.stats.inc(&format!("typed_entry.{}", crate::env::TYPED_ENTRIES[case.typed % 8]));
             let depth = case.program.depth();
-            out.stats.inc(if depth >= 20 {
+            out.stats.inc(if depth >= 128 {
+                "depth.128plus"
+            } else if depth >= 20 {
                 "depth.20plus"
             } else if depth >= 8 {
                 "depth.8_19"
@@ -285,7 +288,7 @@ pub fn minimise(replay: &Json) -> Json {
         progress = false;
         let mut candidates: Vec<Case> = Vec::new();
         for p in case.program.shrink_candidates() {
-            if case.form == Form::Parsed && !p.is_renderable() {
+            if case.form.is_parsed() && !p.is_renderable() {
                 continue;
             }
             let mut c = case.clone();
@@ -312,7 +315,7 @@ pub fn minimise(replay: &Json) -> Json {
             c.typed = 0;
             candidates.push(c);
         }
-        if case.form == Form::Parsed {
+        if case.form.is_parsed() {
             let mut c = case.clone();
             c.form = Form::Assembled { wrap: true };
             c.entry = Entry::Tree;
@@ -432,6 +435,7 @@ pub fn check(prop: Prop, tier: &str, exe: &Path) -> i32 {
         "plans.single_fault",
         "plans.double_fault",
         "form.parsed",
+        "form.parsed_loose",
         "form.assembled",
         "form.assembled_wrapped",
         "context_kind.sim",
@@ -439,8 +443,12 @@ pub fn check(prop: Prop, tier: &str, exe: &Path) -> i32 {
         "context_kind.nostore",
         "entry.string",
         "depth.20plus",
+        "depth.128plus",
         "workload_failures.fault_free_program_fails",
     ];
+    if prop == Prop::C08 {
+        probes.push("c08.read_only_path_checked");
+    }
     if prop == Prop::C11 {
         probes.extend([
             "c11.no_assignment_trees",
